@@ -7,3 +7,6 @@ mkdir -p build evidence
 cd engine
 go build -o ../build/symgo ./cmd/symgo
 echo "symgo built"
+cd ..
+# engine self-validation: litmus harnesses with known outcomes (about a minute)
+python3 tools/litmus.py
